@@ -338,6 +338,18 @@ func layouts(thorough bool) []layout {
 		b = 2
 	}
 	var out []layout
+	bigDoc := func(prefix string, n int) string {
+		var l []string
+		for i := 0; i < n; i++ {
+			l = append(l, fmt.Sprintf("%q:%q", fmt.Sprintf("%s%d", prefix, i), fmt.Sprintf("V%s%d", prefix, i)))
+		}
+		return "{" + strings.Join(l, ",") + "}"
+	}
+	// files of very different sizes (size-dependent code paths in the store)
+	out = append(out,
+		layout{"big-and-small", map[string]string{"big.json": bigDoc("b", 40), "small.json": `{"s":"S"}`}, 2, b},
+		layout{"two-big", map[string]string{"x.json": bigDoc("x", 17), "y.json": bigDoc("y", 33)}, 2, b},
+	)
 	for _, mj := range []int{1, 2} {
 		out = append(out,
 			layout{"one-file", map[string]string{"en.json": `{"a":"A","n":{"x":"NX"}}`}, mj, b + 1},
@@ -582,7 +594,7 @@ var _ = bytes.Contains
 
 func init() {
 	fw.Register(&fw.Check{ID: "C20", Level: "exploration",
-		Rule: "all nested maps over keys {a,b,é} with depth<=3 and <=3 (quick) / <=4 (thorough) leaves (flatten/rebuild both ways, string variant); all JSON documents of 4 nested-object shapes whose string leaf ranges over every string of <=2 (quick) / <=3 (thorough) symbols from {a, quote, backslash, slash, newline, tab, U+0001, é} in every JSON spelling (raw and escaped), plus number/true/null/array leaves, compared with encoding/json (UseNumber); all flat maps from 8 prefix-free key sets x every value string of <=2/3 symbols from {a, quote, backslash, slash, newline, tab, 0x01, é, '<', U+2028} written compact and formatted (valid for encoding/json, same map, round trip); translation loader on 8 directory layouts under every schedule with <= bound preemptions. distinct = inputs/schedules",
+		Rule: "all nested maps over keys {a,b,é} with depth<=3 and <=3 (quick) / <=4 (thorough) leaves (flatten/rebuild both ways, string variant); all JSON documents of 4 nested-object shapes whose string leaf ranges over every string of <=2 (quick) / <=3 (thorough) symbols from {a, quote, backslash, slash, newline, tab, U+0001, é} in every JSON spelling (raw and escaped), plus number/true/null/array leaves, compared with encoding/json (UseNumber); all flat maps from 8 prefix-free key sets x every value string of <=2/3 symbols from {a, quote, backslash, slash, newline, tab, 0x01, é, '<', U+2028} written compact and formatted (valid for encoding/json, same map, round trip); translation loader on 10 directory layouts (1-4 files, 1-40 keys per file) under every schedule with <= bound preemptions. distinct = inputs/schedules",
 		Run: run, Replay: replay,
 		Assumptions: []string{"encoding/json is the reference JSON decoder", "loader values are %-free (Translate is a format API)", "2-3 preemptions, MaxJob 1-2 for the loader"}})
 }
